@@ -423,11 +423,12 @@ class MailboxSet(MailboxSetInterface[MailboxData]):
             elif after_entry is not None:
                 raise ValueError(after)
         async with self._set_lock.write_lock():
+            if before == 'INBOX':
+                # inferior names of INBOX are unaffected (RFC 3501 6.3.5)
+                self._set[after] = self._inbox
+                self._inbox = MailboxData(
+                    self._content_cache, self._thread_cache)
+                return
             for before_name, after_name in tree.get_renames(before, after):
-                if before_name == 'INBOX':
-                    self._set[after_name] = self._inbox
-                    self._inbox = MailboxData(
-                        self._content_cache, self._thread_cache)
-                else:
-                    self._set[after_name] = self._set[before_name]
-                    del self._set[before_name]
+                self._set[after_name] = self._set[before_name]
+                del self._set[before_name]
